@@ -237,6 +237,27 @@ def statics():
     return out
 
 
+def memo_caches():
+    """(name, wrapper) of every functools cache (lru_cache / cache) among the module globals and class attributes of the
+    library's loaded modules: process-wide state the digest walk cannot see (the table lives in C)"""
+    out = []
+    for mname in _lib_modules():
+        mod = sys.modules.get(mname)
+        if mod is None:
+            continue
+        for k, v in list(vars(mod).items()):
+            if hasattr(v, "cache_clear") and hasattr(v, "cache_info"):
+                out.append(("%s.%s" % (mname, k), v))
+            elif isinstance(v, type) and v.__module__ == mname:
+                for ck, cv in list(vars(v).items()):
+                    f = getattr(cv, "__func__", cv)
+                    if isinstance(cv, property):
+                        f = cv.fget
+                    if hasattr(f, "cache_clear") and hasattr(f, "cache_info"):
+                        out.append(("%s.%s.%s" % (mname, v.__name__, ck), f))
+    return out
+
+
 _STATIC_BASE = None
 
 
@@ -745,6 +766,10 @@ def run_history(job, wdir, shared_domains=None, oracle=True, watch=None, mark_st
     return out, ctx
 
 
+def _nomsg(r):
+    return {k: v for k, v in r.items() if k != "msg"} if isinstance(r, dict) else r
+
+
 def _short(x):
     t = x if isinstance(x, str) else json.dumps(x)
     return t if len(t) <= 300 else t[:300] + "..."
@@ -758,6 +783,8 @@ def _reset_module():
     leaked = [k for k in dt if k != "object"]
     for k in leaked:
         del dt[k]
+    for _, c in memo_caches():         # a memo table is emptied, not judged: what it may do is change ANSWERS (twin run)
+        c.cache_clear()
     if _STATIC_BASE is None:
         _STATIC_BASE = _static_state()
         return leaked
@@ -779,11 +806,26 @@ def history(job):
     wdir.mkdir(parents=True)
     try:
         _reset_module()
+        twin, twin_leak = None, []
+        if job.get("indep") and job.get("twin", True):
+            # the TWIN run: the same calls in a process state in which the independent world has NOT been parsed and used
+            # before (statics restored, memo tables emptied); no oracle, only the answers
+            tdir = wdir / "twin"
+            tdir.mkdir()
+            tout, _ = run_history(dict(job, indep=None), tdir, oracle=False)
+            twin = [None if s.get("skipped") else strip_x(s["res"]) for s in tout["steps"]]
+            twin_leak = _reset_module()
         s0 = {n: digest([o]) for n, o in statics()}
         indep = Indep(job["indep"], wdir) if job.get("indep") else None
         s1 = {n: digest([o]) for n, o in statics()}
         out, _ = run_history(job, wdir, indep=indep)
-        out["module_leak"] = _reset_module()
+        out["module_leak"] = sorted(set(_reset_module()) | set(twin_leak))
+        if twin is not None:
+            # the history's answers must not depend on whether another domain and problem were parsed and used before it
+            got = [None if s.get("skipped") else strip_x(s["res"]) for s in out["steps"]]
+            out["twin_mismatch"] = [{"step": i, "op": out["steps"][i].get("op"), "alone": _short(a), "after_the_independent_world": _short(b)}
+                                    for i, (a, b) in enumerate(zip(twin, got)) if _nomsg(a) != _nomsg(b)][:4]
+            out["memo_caches"] = [n for n, _ in memo_caches()]
         built = sorted(n for n in s0 if s1.get(n) != s0[n])
         if built:      # building / simulating the independent world itself wrote a process-wide object
             out["statics_changed"] = sorted(set(out.get("statics_changed", [])) | set(built))
